@@ -276,3 +276,72 @@ func CountEvents(fn *ssa.Function, from Point, event func(ssa.Instruction) bool,
 	}
 	return res
 }
+
+// MayLockSets is the may-analysis counterpart of LockSets: the set of
+// mutexes that are held on SOME path reaching each instruction (union at
+// joins). A deferred Unlock keeps the lock until exit.
+func MayLockSets(fn *ssa.Function, entry LockSet) map[ssa.Instruction]LockSet {
+	in := map[*ssa.BasicBlock]LockSet{}
+	res := map[ssa.Instruction]LockSet{}
+	if len(fn.Blocks) == 0 {
+		return res
+	}
+	if entry == nil {
+		entry = LockSet{}
+	}
+	transfer := func(b *ssa.BasicBlock, s LockSet, record bool) LockSet {
+		cur := s.clone()
+		for _, ins := range b.Instrs {
+			if record {
+				res[ins] = cur.clone()
+			}
+			call, ok := ins.(*ssa.Call)
+			if !ok {
+				continue
+			}
+			kind, m := LockOp(call.Common())
+			if kind == "" {
+				continue
+			}
+			p := MutexPath(m)
+			switch kind {
+			case "Lock", "TryLock":
+				cur[p] = true
+			case "RLock", "TryRLock":
+				cur[p+"(r)"] = true
+			case "Unlock":
+				delete(cur, p)
+			case "RUnlock":
+				delete(cur, p+"(r)")
+			}
+		}
+		return cur
+	}
+	in[fn.Blocks[0]] = entry.clone()
+	work := []*ssa.BasicBlock{fn.Blocks[0]}
+	for len(work) > 0 {
+		b := work[0]
+		work = work[1:]
+		o := transfer(b, in[b], false)
+		for _, s := range b.Succs {
+			old, ok := in[s]
+			ni := LockSet{}
+			if ok {
+				ni = old.clone()
+			}
+			for k := range o {
+				ni[k] = true
+			}
+			if !ok || !equalSets(old, ni) {
+				in[s] = ni
+				work = append(work, s)
+			}
+		}
+	}
+	for _, b := range fn.Blocks {
+		if s, ok := in[b]; ok {
+			transfer(b, s, true)
+		}
+	}
+	return res
+}
